@@ -17,12 +17,14 @@
 #if __cplusplus >= 201911L
 
 #  include <unifex/async_pass.hpp>
+#  include <unifex/detail/verif_hooks.hpp>
 
 namespace unifex::_pass {
 
 accept_op_base_noargs* async_pass_base::try_claim_acceptor() noexcept {
   auto s = state_.load(std::memory_order_acquire);
   while (is_acceptor(s)) {
+    UNIFEX_VERIF_YIELD("event.pass.tca");
     if (state_.compare_exchange_weak(
             s, 0, std::memory_order_acq_rel, std::memory_order_acquire)) {
       return as_acceptor(s);
@@ -34,6 +36,7 @@ accept_op_base_noargs* async_pass_base::try_claim_acceptor() noexcept {
 uintptr_t async_pass_base::try_claim_caller_raw() noexcept {
   auto s = state_.load(std::memory_order_acquire);
   while (is_caller(s)) {
+    UNIFEX_VERIF_YIELD("event.pass.tcc");
     if (state_.compare_exchange_weak(
             s, 0, std::memory_order_acq_rel, std::memory_order_acquire)) {
       return s;
@@ -45,6 +48,7 @@ uintptr_t async_pass_base::try_claim_caller_raw() noexcept {
 uintptr_t async_pass_base::call_or_suspend_raw(uintptr_t caller) noexcept {
   auto s = state_.load(std::memory_order_acquire);
   while (true) {
+    UNIFEX_VERIF_YIELD("event.pass.cos");
     if (is_acceptor(s)) {
       if (state_.compare_exchange_weak(
               s, 0, std::memory_order_acq_rel, std::memory_order_acquire)) {
@@ -67,6 +71,7 @@ uintptr_t async_pass_base::call_or_suspend_raw(uintptr_t caller) noexcept {
 uintptr_t async_pass_base::accept_or_suspend_raw(uintptr_t acceptor) noexcept {
   auto s = state_.load(std::memory_order_acquire);
   while (true) {
+    UNIFEX_VERIF_YIELD("event.pass.aos");
     if (is_caller(s)) {
       if (state_.compare_exchange_weak(
               s, 0, std::memory_order_acq_rel, std::memory_order_acquire)) {
